@@ -3,7 +3,7 @@ NOTES = ("Solver-based checking of the real code: the repo's Python sources are 
          "verdicts are z3 unsat/sat over all values within stated bounds; counterexamples are replayed on a real build of /repo's working tree "
          "(tools/build_overlay.sh) before any VIOLATION line is printed. Exit 3 = harness error / inconclusive (never counted as success).")
 ENGINES = [
- {'name': 'P', 'path': 'vp/pysym', 'serves_properties': ['C01', 'C02', 'C03', 'C08'], 'kind_free_text': "symbolic execution of /repo/src/python/*.py on a symbolic matrix/BLAS shim; z3 decides obligations"},
+ {'name': 'P', 'path': 'vp/pysym', 'serves_properties': ['C01', 'C02', 'C03', 'C08', 'C10'], 'kind_free_text': "symbolic execution of /repo/src/python/*.py on a symbolic matrix/BLAS shim; z3 decides obligations"},
 ]
 _CONELP_NOTE = ("Assumes the loop invariant at the head of an arbitrary iteration (tau>0, kappa>0, gap=<s,z>/tau^2, s,z strictly interior) - its preservation by the "
   "floating-point step is outside the claim; exact real arithmetic; cone structures in a stated box (l<=2, q dims<=2(3), s orders<=2, two s blocks), n<=2(3), p<=1; "
@@ -21,6 +21,10 @@ CHECKS = {
    technique='bounded symbolic execution of the real coneqp exit block and no-inequality shortcut (z3 over reals), staged SMT obligations, replay on the real build',
    text="The real coneqp source is executed symbolically from the loop head of an arbitrary iteration with an arbitrary iterate (P's strict upper triangle independent junk symbols), and through the cdim==0 shortcut with an exact KKT contract stub; on every 'optimal' path z3 decides the residual bounds in the documented norms (P symmetrised from its lower triangle only), cone membership, one of the three gap criteria and equality of every reported field with its recomputation.",
    note=_CONELP_NOTE.replace('tau>0, kappa>0, gap=<s,z>/tau^2', 'gap=<s,z>').replace('conelp', 'coneqp') + " Shortcut: the user KKT solver is a contract stub returning any solution of the documented block system; abstol>=0 there."),
+ 'C10': dict(engine='P', category='fault_enumeration', design_ref='DESIGN.md section 7 C10',
+   technique='symbolic execution of the real conelp/coneqp with an ArithmeticError injected at each KKT call site; z3 decides the admissible-outcome oracle per fault plan; replay on the real build',
+   text="For each fault plan (solver x cone structure x start-point mode x failing factor/solve call x iteration class) the real solver source runs symbolically with the failure injected by the user-KKT-solver stub; data, iterate, tolerances, iteration index and the results of the non-failing solves are solver variables. z3 decides that the only outcomes are ValueError('Rank...') during start-up/iteration 0 or a self-consistent 'unknown' result with s,z still strictly in the cone, and finds a concrete fault scenario otherwise (replayed on the real build). This found and led to the repair of two escaping-ArithmeticError defects (see known_findings.json).",
+   note="Fault sites: factor call #1 and solve calls #1..#3 of a run (start-up sites and the sites of one arbitrary iteration), conelp and coneqp only; cpl/cp restore-and-retry and domain backtracking are not covered. Non-failing KKT solves return arbitrary vectors and the scaling is arbitrary, so exceptions raised by the numeric body on such arbitrary values (math domain errors) are outside the claim. Loop invariant assumed at the head of the faulting iteration; exact real arithmetic."),
  'C08': dict(engine='P', category='translation_validation', design_ref='DESIGN.md section 7 C08',
    technique='symbolic execution of the real Python kernels on z3 reals; SMT equivalence with a written-down definition per configuration',
    text="Every Python fallback kernel of misc.py is executed symbolically (all vector/matrix data z3 reals) for each cone structure in a stated box and each flag/offset combination; z3 proves result == definition cell by cell plus the frame condition (unsat of the negation), so within the box the claim holds for all real data, not for sampled data.",
